@@ -5,7 +5,7 @@ from harness import runner, tlc, isagen
 
 INV = ['SizeIsSum', 'StepsAreWholeBytes', 'Emit']
 ADDR = 16
-PAT = {'num': (1, ['num8']), 'reg': (1, ['regs']), 'ind': (1, ['ind']), 'num2': (2, ['num8', 'num8'])}
+PAT = {'any': (1, ['anyop']), 'num': (1, ['num8']), 'reg': (1, ['regs']), 'ind': (1, ['ind']), 'num2': (2, ['num8', 'num8'])}
 INVTXT = {'bare': 'mac', 'lit': 'mac 5', 'fwd': 'mac fwd', 'back': 'mac back', 'reg': 'mac r1', 'ind': 'mac [r1+5]', 'lit2': 'mac 5, 9'}
 ARGTXT = {'bare': [], 'lit': ['5'], 'fwd': ['fwd'], 'back': ['back'], 'lit2': ['5', '9'], 'ind': ['5'], 'reg': [None]}
 OPTXT = {'bare': [], 'lit': ['5'], 'fwd': ['fwd'], 'back': ['back'], 'lit2': ['5', '9'], 'ind': ['[r1+5]'], 'reg': ['r1']}
@@ -25,6 +25,8 @@ def macro_isa(m):
     arg = lambda sz: {'size': sz, 'byte_align': False}
     opsets = {
         'num8': {'operand_values': {'n8': {'type': 'numeric', 'argument': arg(8)}}},
+        'anyop': {'operand_values': {'an8': {'type': 'numeric', 'argument': arg(8)},
+                                     'ar1': {'type': 'register', 'register': 'r1', 'bytecode': {'value': 1, 'size': 4}}}},
         'num4': {'operand_values': {'n4': {'type': 'numeric', 'argument': arg(4)}}},
         'rel8': {'operand_values': {'rl': {'type': 'relative_address', 'argument': arg(8)}}},
         'rel8e': {'operand_values': {'rle': {'type': 'relative_address', 'argument': arg(8), 'offset_from_instruction_end': True}}},
